@@ -158,6 +158,18 @@ pub fn gen(rng: &mut Rng, size: usize) -> Value {
         };
         valid = false;
     }
+    if body.first() == Some(&b'{') && body.len() > 2 && rng.chance(1, 5) {
+        // members a JSON front end may treat differently on different paths: values of UNKNOWN keys that are only
+        // skipped (not valid UTF-8, a lone surrogate escape, a number out of range, nesting), a REPEATED known key
+        let member: &[u8] = *rng.pick(&[&b"\"x_gen\":\"caf\xE9\","[..], &b"\"x_s\":\"\\ud800\","[..], &b"\"x_n\":1e999,"[..], &b"\"x_i\":123456789012345678901234567890,"[..],
+                                        &b"\"x_o\":{\"mappings\":[{}],\"sections\":7},"[..], &b"\"x_deep\":[[[[[[[[]]]]]]]],"[..],
+                                        &b"\"mappings\":\"AAAA\","[..], &b"\"version\":3,"[..], &b"\"sections\":[],"[..], &b"\"x_gen\":\"\xFF\xFE\",\"x_gen\":1,"[..]]);
+        let at = if rng.chance(1, 2) { 1 } else { body.len() - 1 };
+        let mut ins = member.to_vec();
+        if at != 1 { ins.pop(); ins.insert(0, b','); }
+        body.splice(at..at, ins);
+        valid = false;
+    }
     match rng.below(6) {
         0 => { let n = rng.below(body.len() as u64) as usize; body.truncate(n); valid = false; }     // truncated
         1 => { let k = rng.below(body.len() as u64) as usize; body[k] = *rng.pick(&[b'}', b'"', b'x', 0, b',']); valid = false; } // corrupted (may still parse)
